@@ -1,13 +1,16 @@
 // C24 probe: FactorLU / FactorLLT / FactorQTZ / FactorSVD / Eigen on matrices given on stdin; prints everything the
 // certificate checkers need.  One case per input line, one output line per case.  <p> = d|f|z|c (double, float,
 // complex<double>, complex<float>); real entries are one token, complex entries two (re im); all matrices row-major.
-//   SVD <p> m n rcond A[m*n] b[m]     -> OK rankFresh rankAfterValues rankAfterSolve | s[k] | U[m*m] | Vt[n*n] | x[n] | [inv[n*m] if m<=n]
+//   SVD <p> entry m n rcond A[m*n] b[m]     -> OK rankFresh rankAfterValues rankAfterSolve | s[k] | U[m*m] | Vt[n*n] | x[n] | [inv[n*m] if m<=n]
 //                                        rcond < 0: the constructor without rcond
-//   QTZ <p> m n rcond A[m*n] b[m]     -> OK rank rcondEstimate | x[n] | X[n*2] (matrix rhs (b, 2b)) | [inv[n*n] if m==n]
-//   LU  <p> n A[n*n] b[n]             -> OK isSingular | x[n] | X[n*2] | inv[n*n] | L[n*n] | U[n*n]
-//   LLT <p> n A[n*n] b[n]             -> OK | x[n] | inv[n*n] | L[n*n]
-//   EIG <p> n A[n*n]                  -> OK | values[n] (complex) | vectors[n*n] (complex, row-major; column j = eigenvector j)
-//   EIGRAW <p> n A[n*n]               same, without pre-sizing the result matrix (may crash for p = z: see below)
+//   QTZ <p> entry m n rcond A[m*n] b[m]     -> OK rank rcondEstimate | x[n] | X[n*2] (matrix rhs (b, 2b)) | [inv[n*n] if m==n]
+//   LU  <p> entry n A[n*n] b[n]             -> OK isSingular | x[n] | X[n*2] | inv[n*n] | L[n*n] | U[n*n]
+//   LLT <p> entry n A[n*n] b[n]             -> OK | x[n] | inv[n*n] | L[n*n]
+//   EIG <p> entry n A[n*n]                  -> OK | values[n] (complex) | vectors[n*n] (complex, row-major; column j = eigenvector j)
+//   EIGRAW <p> entry n A[n*n]               same, without pre-sizing the result matrix (may crash for p = z: see below)
+// Every kind takes an ENTRY code right after <p> (how the factorization object gets its matrix), so that every public entry point is exercised:
+//   0 = constructor; 1 = default-constructed object, then factor(); 2 = object constructed on a different (identity-like) matrix, then factor()
+//   (re-factorization).  With rcond < 0 the overloads WITHOUT an rcond argument are used (documented default max(m,n)*eps^(7/8)).
 // Numbers are printed with %a (floats widened exactly); sections are separated by " | "; "EXC <what>" on any exception.
 #include "SimTKmath.h"
 #include <cstdio>
@@ -37,15 +40,33 @@ template <class T> static Vector_<T> rdV(int n) { Vector_<T> v(n); for (int i=0;
 template <class T> static void prM(const Matrix_<T>& A) { std::printf(" | %d %d", A.nrow(), A.ncol()); for (int i=0;i<A.nrow();++i) for (int j=0;j<A.ncol();++j) IO<T>::pr(A(i,j)); }
 template <class T> static void prV(const Vector_<T>& v) { std::printf(" | %d", v.size()); for (int i=0;i<v.size();++i) IO<T>::pr(v[i]); }
 
+
+// a well conditioned dummy matrix of the same shape (ones on the diagonal), used for entry 2: factor something else first
+template <class T> static Matrix_<T> dummy(int m, int n) { Matrix_<T> A(m, n); for (int i=0;i<m;++i) for (int j=0;j<n;++j) A(i,j) = (i==j) ? T(1) : T(0); return A; }
+template <class F, class T> static F make(int entry, const Matrix_<T>& A, double rc) {
+    typedef typename CNT<T>::TReal R;
+    if (entry == 0) return rc < 0 ? F(A) : F(A, (R)rc);
+    F f = (entry == 1) ? F() : (rc < 0 ? F(dummy<T>(A.nrow(), A.ncol())) : F(dummy<T>(A.nrow(), A.ncol()), (R)rc));
+    if (rc < 0) f.factor(A); else f.factor(A, (R)rc);
+    return f;
+}
+template <class F, class T> static F make1(int entry, const Matrix_<T>& A) {      // classes without an rcond argument
+    if (entry == 0) return F(A);
+    F f = (entry == 1) ? F() : F(dummy<T>(A.nrow(), A.ncol()));
+    f.factor(A);
+    return f;
+}
+
 template <class T> static void run(const std::string& kind) {
+    const int entry = ni();
     typedef typename CNT<T>::TReal R;
     if (kind == "SVD") {
         int m = ni(), n = ni(); double rc = nf();
         Matrix_<T> A = rdM<T>(m, n); Vector_<T> b = rdV<T>(m);
         // rank asked of a fresh factorization, before anything else was computed
         int rankFresh, rankAfterValues, rankAfterSolve;
-        { FactorSVD f0 = rc < 0 ? FactorSVD(A) : FactorSVD(A, (R)rc); rankFresh = f0.getRank(); }
-        FactorSVD f = rc < 0 ? FactorSVD(A) : FactorSVD(A, (R)rc);
+        { FactorSVD f0 = make<FactorSVD>(entry, A, rc); rankFresh = f0.getRank(); }
+        FactorSVD f = make<FactorSVD>(entry, A, rc);
         Vector_<R> s; Matrix_<T> U, Vt; f.getSingularValuesAndVectors(s, U, Vt); rankAfterValues = f.getRank();
         Vector_<T> x; f.solve(b, x); rankAfterSolve = f.getRank();
         std::printf("OK %d %d %d", rankFresh, rankAfterValues, rankAfterSolve);
@@ -55,7 +76,7 @@ template <class T> static void run(const std::string& kind) {
     } else if (kind == "QTZ") {
         int m = ni(), n = ni(); double rc = nf();
         Matrix_<T> A = rdM<T>(m, n); Vector_<T> b = rdV<T>(m);
-        FactorQTZ f = rc < 0 ? FactorQTZ(A) : FactorQTZ(A, (R)rc);
+        FactorQTZ f = make<FactorQTZ>(entry, A, rc);
         Vector_<T> x; f.solve(b, x);
         Matrix_<T> B(m, 2), X; for (int i=0;i<m;++i) { B(i,0) = b[i]; B(i,1) = b[i] + b[i]; } f.solve(B, X);
         std::printf("OK %d %a", f.getRank(), f.getRCondEstimate());
@@ -64,7 +85,7 @@ template <class T> static void run(const std::string& kind) {
         std::printf("\n");
     } else if (kind == "LU") {
         int n = ni(); Matrix_<T> A = rdM<T>(n, n); Vector_<T> b = rdV<T>(n);
-        FactorLU f(A);
+        FactorLU f = make1<FactorLU>(entry, A);
         Vector_<T> x; f.solve(b, x);
         Matrix_<T> B(n, 2), X; for (int i=0;i<n;++i) { B(i,0) = b[i]; B(i,1) = b[i] + b[i]; } f.solve(B, X);
         Matrix_<T> inv; f.inverse(inv);
@@ -74,7 +95,7 @@ template <class T> static void run(const std::string& kind) {
         std::printf("\n");
     } else if (kind == "LLT") {
         int n = ni(); Matrix_<T> A = rdM<T>(n, n); Vector_<T> b = rdV<T>(n);
-        FactorLLT f(A);
+        FactorLLT f = make1<FactorLLT>(entry, A);
         Vector_<T> x; f.solve(b, x);
         Matrix_<T> inv; f.inverse(inv);
         Matrix_<T> L; f.getL(L);
@@ -83,6 +104,8 @@ template <class T> static void run(const std::string& kind) {
         std::printf("\n");
     } else if (kind == "EIG" || kind == "EIGRAW") {
         int n = ni(); Matrix_<T> A = rdM<T>(n, n);
+        // Eigen::factor(const Matrix_<ELT>&) is declared in LinearAlgebra.h but defined nowhere in the library (link error), so the
+        // constructor is the only way to hand Eigen a matrix; entry is ignored here
         Eigen e(A);
         Vector_<std::complex<R> > vals; Matrix_<std::complex<R> > vecs;
         // EigenRep<complex<double>>::copyVectors writes into `vectors` without resizing it (the resize is inside a commented-out
